@@ -159,6 +159,18 @@ def _check(ctx, case):
     # matching runs accumulate as if the matching sets were concatenated
     all_t, all_pt = [], []
     for ri, (m, cont) in enumerate(zip(mruns, conts)):
+        if ri == 1 and case.get('sibling'):
+            # another attack object of the same kind, declared with the classes in another order, is built and run between two
+            # runs of the attack under test: objects are independent
+            sib = dict(case)
+            sib['partitions'] = P[1:] + P[:1]
+            sib['empty_classes'] = []
+            b = _mk_attack(sib, bt, bl)
+            with warnings.catch_warnings():
+                warnings.simplefilter('ignore')
+                must(case, 'sibling %s.build()' % attack, b.build)
+                must(case, 'sibling %s.run()' % attack, b.run, scared.Container(dist.ram_ths(samples=mruns[0]['traces'], pt=mruns[0]['pt'])))
+            labels.append('sibling_object_run_between_runs')
         with warnings.catch_warnings():
             warnings.simplefilter('ignore')
             must(case, '%s.run() #%d' % (attack, ri + 1), a.run, cont)
@@ -302,7 +314,8 @@ def cases(draw, attack, precision, tdtypes, pool_seed=0):
     elif degenerate == 'dup_scaled' and not isint:
         bt[:, L - 1] = (bt[:, 0].astype('float64') * 0.5 + 1).astype(tdt)
     ddt = draw(st.sampled_from([d for d in gen.CLASS_DTYPES if int(lab.max()) <= np.iinfo(d).max]))
-    nm = draw(st.integers(1, 2))
+    sibling = draw(st.sampled_from([False, False, True]))
+    nm = 2 if sibling else draw(st.integers(1, 2))
     matching = []
     for _ in range(nm):
         m = draw(st.one_of(st.integers(1, 6), st.integers(1, 30)))
@@ -320,7 +333,7 @@ def cases(draw, attack, precision, tdtypes, pool_seed=0):
         matching.append({'traces': mt, 'pt': pt.astype('uint8')})
     return {'kind': 'template', 'attack': attack, 'precision': precision, 'partitions': list(P), 'build_traces': bt, 'build_labels': lab.astype(ddt).reshape(n, 1),
             'batch_size': draw(st.sampled_from([0, 0, 1, 3, 5, 7, 16])), 'guesses': draw(st.integers(2, 5)), 'matching': matching,
-            'run_before_build': draw(st.sampled_from([False, False, True])),
+            'run_before_build': draw(st.sampled_from([False, False, True])), 'sibling': sibling,
             'empty_classes': [[draw(st.integers(0, k)), max(P) + 11 + 3 * j] for j in range(draw(st.sampled_from([0, 0, 0, 1, 2])))]}
 
 
